@@ -290,4 +290,17 @@ MUTANTS = {
         "edits": [("Lib/fontTools/ttLib/tables/_n_a_m_e.py", "    def toXML(self, writer, ttFont):\n        for name in self.names:\n            name.toXML(writer, ttFont)\n", "    def toXML(self, writer, ttFont):\n        for name in self.names:\n            name.toXML(writer, ttFont)\n        if len(self.names) > 3:\n            self.names = self.names[:-1]\n")],
         "check": ["C16", "--tier", "quick", "--only", "hist,hist_ensure"],
     },
+    # ---- added with the sixth round's ingredients
+    "c04_hhea_cff_width_floors_xmax": {
+        "edits": [("Lib/fontTools/ttLib/tables/_h_h_e_a.py", "                        math.ceil(bounds[2]) - math.floor(bounds[0])", "                        math.floor(bounds[2]) - math.floor(bounds[0])")],
+        "check": ["C04", "--tier", "quick", "--only", "save"],
+    },
+    "c04_composite_keeps_component_extents": {
+        "edits": [("Lib/fontTools/ttLib/tables/_g_l_y_f.py", "            if boundsDone is None or glyphName not in boundsDone:\n                try:\n                    g.recalcBounds(glyfTable, boundsDone=boundsDone)", "            if (boundsDone is None or glyphName not in boundsDone) and not hasattr(g, \"xMin\"):\n                try:\n                    g.recalcBounds(glyfTable, boundsDone=boundsDone)")],
+        "check": ["C04", "--tier", "quick", "--only", "save"],
+    },
+    "c03_component_unit_scale_dropped_on_import": {
+        "edits": [("Lib/fontTools/ttLib/tables/_g_l_y_f.py", "            scale = str2fl(attrs[\"scale\"], 14)\n            self.transform = [[scale, 0], [0, scale]]", "            scale = str2fl(attrs[\"scale\"], 14)\n            if scale != 1:\n                self.transform = [[scale, 0], [0, scale]]")],
+        "check": ["C03", "--tier", "quick"],
+    },
 }
